@@ -1002,6 +1002,44 @@ func genMethod(r *hx.Rand) *methodCase {
 	if r.Chance(1, 10) {
 		c.RawQuery = B(hx.Pick(r, []string{"_method=%zz", "_method", "_method=DELETE;x=1", "_method=a&_method=DELETE", "%5Fmethod=PUT", "_method=PUT+"}))
 	}
+	if r.Chance(1, 5) {
+		// look-alikes of the override parameter: names that END in a parameter name a configuration can ask
+		// for, the text `name=` inside another parameter's value, repeated and percent-encoded occurrences —
+		// all carrying methods an allow-list may contain; usually no override header, so the query decides
+		name := hx.Pick(r, []string{"_method", "_method", "method", "m"})
+		for _, o := range c.Opts {
+			if o.K == "Q" && len(o.S) > 0 && r.Chance(2, 3) {
+				name = string(o.S)
+			}
+		}
+		v := func() string { return hx.Pick(r, []string{"PUT", "put", "DELETE", "delete", "PATCH", "Patch", "TRACE", "GET", "POST"}) }
+		pre := hx.Pick(r, []string{"payment", "http", "x", "old", "form", "_", "%5F", "a.b", "return"})
+		var parts []string
+		for i, n := 0, r.Range(1, 3); i < n; i++ {
+			switch r.Intn(8) {
+			case 0, 1, 2:
+				parts = append(parts, pre+name+"="+v()) // longer key ending in the name
+			case 3:
+				parts = append(parts, "return_to=/items/7?"+name+"="+v()) // inside a value, unescaped
+			case 4:
+				parts = append(parts, "next="+url.QueryEscape("/x?"+name+"="+v())) // inside a value, escaped
+			case 5:
+				parts = append(parts, name+"="+v()) // the real parameter
+			case 6:
+				parts = append(parts, url.QueryEscape(name)+"="+url.QueryEscape(" "+v()+" "), strings.ToUpper(name)+"="+v())
+			default:
+				parts = append(parts, name+"x="+v(), "q="+name)
+			}
+		}
+		c.RawQuery = B(strings.Join(parts, hx.Pick(r, []string{"&", "&", ";"})))
+		if r.Chance(4, 5) {
+			c.Hdr = map[string]B{}
+		}
+		if r.Chance(3, 4) {
+			c.Method = "POST"
+			c.Direct = false
+		}
+	}
 	c.CLen = int64(hx.Pick(r, []int{0, 0, 5, -1}))
 	return c
 }
@@ -1357,6 +1395,11 @@ func fixedCases() []caseT {
 		{Kind: "M", Meth: &methodCase{Method: "GET", Hdr: map[string]B{"X-HTTP-Method-Override": B("DELETE")}}},
 		{Kind: "M", Meth: &methodCase{Method: "POST", Hdr: map[string]B{"X-HTTP-Method-Override": B("TRACE")}}},
 		{Kind: "M", Meth: &methodCase{Method: "POST", Hdr: map[string]B{"X-HTTP-Method-Override": B(" delete ")}}},
+		// look-alikes of the override parameter must not override
+		{Kind: "M", Meth: &methodCase{Method: "POST", Hdr: map[string]B{}, RawQuery: B("payment_method=put")}},
+		{Kind: "M", Meth: &methodCase{Method: "POST", Hdr: map[string]B{}, RawQuery: B("return_to=/items/7?_method=DELETE")}},
+		{Kind: "M", Meth: &methodCase{Method: "POST", Hdr: map[string]B{}, RawQuery: B("x_method=PUT&_method=TRACE"), Opts: []methOpt{{K: "A", L: []B{B("PUT")}}}}},
+		{Kind: "M", Meth: &methodCase{Method: "POST", Hdr: map[string]B{}, RawQuery: B("old_method=DELETE&_method=PUT")}},
 	}
 }
 
